@@ -21,6 +21,8 @@ ASSUME = [
 
 
 def run_case(ctx, mr, case):
+    if case.get('sib'):
+        return sibling_case(ctx, case)
     v, bio, off, sz = cc.open_view(case)
     base = bytes.fromhex(case['base'])
     key = bytes.fromhex(case['key'])
@@ -47,6 +49,13 @@ def run_case(ctx, mr, case):
         fail_full, fail = fail, (lambda *a: None)
         v.check_reads = lambda pos, got: got == cc.stream_xor(key, case['ctr'], bio.getvalue()[off:off + sz], case['twl'])[pos:pos + len(got)]
     c = fc.Contract(v, plain, fail, writable=True, probe_outside=probe if not short else None, extends=(case['kind'] == 'plain'))
+    if case.get('start'):
+        ctx.stat('wrapped_at_nonzero_position')
+        try:
+            if v.tell() != case['start']:
+                fail('initial-position', 'a wrapper made over a file at position p does not start at p', case['start'], v.tell())
+        except Exception as ex:
+            fail('initial-position', 'tell() raised right after the wrapper was made', case['start'], pyenv.errname(ex))
     c.flags()
     res = []
     for op in case['ops']:
@@ -69,6 +78,8 @@ def run_case(ctx, mr, case):
     out = mr.ask(cc.model_line(case, case['ops']))
     mres, mfinal = out.split(' | ')
     mres = mres.split(' ') if mres else []
+    if case.get('start'):
+        mres = mres[1:]          # the model was brought to the same starting position by a seek of its own
     if mres != res or unhx(mfinal) != bio.getvalue():
         k = next((i for i, (a, b) in enumerate(zip(mres, res)) if a != b), None)
         ctx.diff('corr', f'{mode}-model', case, mres[k] if k is not None else mfinal,
@@ -79,7 +90,50 @@ def run_case(ctx, mr, case):
         ctx.stat('op_' + op[0])
 
 
+def sibling_case(ctx, case):
+    """two wrappers over two windows of ONE base file, used in turn without seeks in between (and the base file moved by its owner):
+    what a wrapper returns depends on its own history only"""
+    import io
+    import random
+    from pyctr.fileio import SubsectionIO
+    rng = random.Random(case['seed'])
+    twl = case['twl']
+    slot = 0x03 if twl else 0x2C
+    base = bytes.fromhex(case['base'])
+    bio = io.BytesIO(base)
+    views = []
+    for (off, sz), key, ctr in zip(case['wins'], case['keys'], case['ctrs']):
+        e = cc.make_engine(bytes.fromhex(key), slot)
+        w = SubsectionIO(bio, off, sz)
+        views.append([e.create_ctr_io(slot, w, ctr), cc.stream_xor(bytes.fromhex(key), ctr, base[off:off + sz], twl), 0])
+    ctx.stat('sibling_histories')
+    for step in range(case['steps']):
+        k = rng.randrange(len(views) + 1)
+        if k == len(views):
+            bio.seek(rng.randrange(len(base) + 1))      # the owner of the base file uses it too
+            continue
+        v, plain, pos = views[k]
+        if rng.random() < 0.2:
+            pos = rng.randrange(len(plain) + 1)
+            v.seek(pos)
+        n = rng.choice([1, 3, 16, 17, 33])
+        got = v.read(n)
+        want = plain[pos:pos + n]
+        views[k][2] = pos + len(want)
+        if got != want or v.tell() != pos + len(want):
+            ctx.diff('oracle', ('twl' if twl else 'ctr') + '-siblings', dict(case, step=step, view=k), want.hex(), bytes(got).hex(),
+                     f'wrapper {k} over its window of a shared base file: read({n}) at {pos} returned other bytes / moved to {v.tell()} '
+                     f'after another handle of the same file was used')
+            return
+
+
 def gen_cases(ctx, rng, writes):
+    for _ in range(ctx.n(60, 2000)):
+        a, b = rng.choice([16, 33, 64, 100]), rng.choice([16, 40, 64])
+        gap = rng.choice([0, 0, 5])
+        yield dict(sib=True, twl=rng.random() < 0.5, base=pyenv.rbytes(rng, 3 + a + gap + b + 2).hex(), wins=[[3, a], [3 + a + gap, b]],
+                   keys=[pyenv.rbytes(rng, 16).hex(), pyenv.rbytes(rng, 16).hex()], ctrs=[rng.getrandbits(100), rng.getrandbits(100)],
+                   steps=rng.randrange(4, 14), seed=rng.randrange(1 << 30))
     for _ in range(ctx.n(500, 20000)):
         case = cc.gen_case(rng, writes)
         # keep every reachable position (large cases seek up to 0x4000 + 17*12, writes extend) below 2^128 blocks
